@@ -54,7 +54,7 @@ HOSTILE = [
     'csi\x9b' + MARK + '\x9b31m',
     'ff\x0c' + MARK + '\x0bvt\x1c\x1d\x1e',
 ]
-GENS = ['corpus', 'corpus', 'corpus-attr', 'corpus-splice', 'valid-unusual', 'bgpls-names', 'bgpls-names', 'srpolicy-names', 'unknown-attr', 'operational', 'refresh', 'notification', 'ref-update', 'ref-update', 'ref-update', 'rfc7606-mix']
+GENS = ['corpus', 'corpus', 'corpus-attr', 'corpus-splice', 'valid-unusual', 'bgpls-names', 'bgpls-names', 'srpolicy-names', 'unknown-attr', 'operational', 'refresh', 'notification', 'ref-update', 'ref-update', 'ref-update', 'rfc7606-mix', 'tunnel-encap', 'bgpls-floats']
 ENVELOPE = {'exabgp', 'time', 'host', 'pid', 'ppid', 'counter', 'type'}
 
 
@@ -126,6 +126,31 @@ def build(item: dict, kind: dict) -> tuple[int, bytes, int]:
         if rng.chance(0.3):
             rng.shuffle(parts)
         return 2, R.build_update(attrs=b''.join(parts), nlri=c03.v4nlri(kind, '192.0.2.0/24'), withdrawn=c03.v4nlri(kind, '198.51.100.0/24') if rng.chance(0.3) else b'')[19:], 0
+    if g == 'tunnel-encap':
+        # Tunnel Encapsulation attribute (23): one or several tunnel TLVs, possibly of the same type, with sub-TLVs
+        tlvs = b''
+        for _ in range(rng.randint(1, 3)):
+            ttype = rng.choice([99, 99, 8, 13, 15, 1])
+            sub = b''
+            for _ in range(rng.randint(0, 2)):
+                code = rng.choice([1, 4, 6, 200])
+                v = bytes(rng.randint(0, 255) for _ in range(rng.choice([0, 2, 4, 6])))
+                sub += bytes([code]) + (len(v).to_bytes(2, 'big') if code >= 128 else bytes([len(v)])) + v
+            tlvs += ttype.to_bytes(2, 'big') + len(sub).to_bytes(2, 'big') + sub
+        attrs = base_attrs(kind) + R.attribute(R.A_TUNNEL, tlvs, flags=0xC0)
+        return 2, R.build_update(attrs=attrs, nlri=c03.v4nlri(kind, '192.0.2.0/24'))[19:], 0
+    if g == 'bgpls-floats':
+        # BGP-LS link attributes holding IEEE floats (bandwidths): NaN and the infinities are values a peer can send
+        vals = [bytes.fromhex(x) for x in ('7fc00000', '7f800000', 'ff800000', '00000000', '4e6e6b28', 'ffffffff')]
+        tl = b''
+        for code in rng.sample([1089, 1090, 1091], rng.randint(1, 3)):
+            v = rng.choice(vals) if code != 1091 else b''.join(rng.choice(vals) for _ in range(8))
+            tl += code.to_bytes(2, 'big') + len(v).to_bytes(2, 'big') + v
+        node = bytes([2]) + bytes(8) + (256).to_bytes(2, 'big') + (8 + 10).to_bytes(2, 'big') + (512).to_bytes(2, 'big') + (4).to_bytes(2, 'big') + (65002).to_bytes(4, 'big') + (515).to_bytes(2, 'big') + (6).to_bytes(2, 'big') + bytes([0, 0, 0, 0, 0, 1])
+        nlri = (1).to_bytes(2, 'big') + len(node).to_bytes(2, 'big') + node
+        mp = (16388).to_bytes(2, 'big') + bytes([71, 4, 10, 0, 0, 9, 0]) + nlri
+        attrs = R.attribute(R.A_ORIGIN, b'\x00') + R.attribute(R.A_AS_PATH, R.enc_as_path([(2, [kind['peer_as']])] if kind['peer_as'] != 65001 else [], kind['asn4'])) + (R.attribute(R.A_LOCAL_PREF, (100).to_bytes(4, 'big')) if kind['peer_as'] == 65001 else b'') + R.attribute(R.A_MP_REACH, mp) + R.attribute(R.A_BGPLS, tl, flags=0x80)
+        return 2, R.build_update(attrs=attrs)[19:], 0
     if g == 'bgpls-names':
         tl = []
         for _ in range(rng.randint(1, 3)):
